@@ -87,8 +87,13 @@ def main():
             sid, pid, res.get('demo_clean_rc'), res.get('demo_patched_rc'), res.get('suite_rc'), res.get('caught'),
             res.get('concrete_input'),
             res.get('violation_line') or res.get('error') or ''))
+    # merge with what other concurrent invocations wrote meanwhile (only the ids handled here are overwritten)
+    latest = json.load(open(resfile)) if os.path.exists(resfile) else {}
+    for sid in ids:
+        if sid in results:
+            latest[sid] = results[sid]
     with open(resfile, 'w') as f:
-        json.dump(results, f, indent=1, sort_keys=True)
+        json.dump(latest, f, indent=1, sort_keys=True)
 
 
 if __name__ == '__main__':
